@@ -209,6 +209,8 @@ def _forall(ctx, f, consts, mx):
         for s in pts:
             for t in pts:
                 env = {"start": s, "stop": t}
+                if s > t and not spec(env):
+                    continue     # an inverted in-range pair overlaps no bin but bin 1: the constant answer there is not the fallback
                 if bool(pred(env)) != bool(spec(env)):
                     cex = env
                     break
